@@ -49,6 +49,23 @@ CLAIMED = {
              "F16 (non-standard GTF dialects) is recorded with a Coq refutation witness (Examples/C08_inhabited.v).",
         technique="Coq proof (codec round-trip theorems over generated quoting table) + differential correspondence incl. exhaustive short strings",
         design="4 (C08)"),
+    "C02": dict(
+        text="Coq theorems (Properties/C02.v, 11 statements, closed under the global context) about the model of the GFF3 "
+             "importer and of children()/parents(): for every input with unique tab/newline-free ids the import succeeds and "
+             "stores each line once in order; level-1 relation rows are exactly the Parent links (dangling parents give a row, "
+             "never a feature), level-2 rows exactly the composition of two level-1 links from a stored feature, nothing deeper; "
+             "the table is invariant under every permutation of the lines; children/parents at level 1, 2 or None select exactly "
+             "the related stored rows, are mutually inverse, return each row once and commute with the featuretype filter. The "
+             "model (Model/Import.v incl. the temp-file text round trip of ids, Model/Query.v) is tied to create.py/interface.py "
+             "by importing ~900 generated graphs per quick run (all line orders for small graphs in the thorough tier) and "
+             "comparing the whole relations table and ~50 children/parents queries per graph inside Coq, against both the model "
+             "and the declarative Parent graph.",
+        note="Trusted: Coq kernel + vm_compute; Model/Import.v and Model/Query.v are hand-written and tied to the code by the "
+             "correspondence only; sqlite semantics (PRIMARY KEY, INSERT OR IGNORE, DISTINCT) modelled. Domain: one ID value per "
+             "line, ids unique, non-empty, without tab/CR/LF (ids with a TAB make _update_relations raise: out of domain, see "
+             "DESIGN F18). order_by arguments of children/parents are covered by C11's model, not here.",
+        technique="Coq proof (relation table = Parent graph and its composition; query inverses) + differential correspondence on generated DAGs",
+        design="4 (C02)"),
 }
 
 PENDING_REASON = "machinery for this property is not built yet in this revision (planned, see DESIGN.md section 4/9); not claimed until its check exists"
